@@ -285,9 +285,16 @@ def _classify(api, col, op, val, missing, extra):
     return f"C12:api-differs-from-sql:{api}:{op}:{col}"
 
 
+_TABLES = [0]
+
+
 def _one_table(ctx, rep, rng, path, file_rows):
+    """every other table numbers its fields the other way round (same schema id, same names, same order): an answer must not depend on
+    which OTHER tables this process has touched before"""
     from datashard import Schema, create_table
-    t = create_table(path, Schema(schema_id=1, fields=FIELDS))
+    _TABLES[0] += 1
+    fields = FIELDS if _TABLES[0] % 2 else [dict(f_, id={1: 8, 8: 1, 2: 7, 7: 2}.get(f_["id"], f_["id"])) for f_ in FIELDS]     # long<->int, double<->float
+    t = create_table(path, Schema(schema_id=1, fields=fields))
     for rows in file_rows:
         t.append_records(rows)
     stored = t.scan()           # values as stored (independent of any filter)
